@@ -26,12 +26,15 @@ Definition reg_operand (s : string) : option operand :=
 
 Definition no_env : env := fun _ => None.
 
+Section WithEnv.
+Variable rho : env.
+
 (* a plain operand: register name or constant expression *)
 Definition plain_operand (e : exp) : option operand :=
   match e with
   | EAdd (EMul (EImm (FId s)) []) [] =>
       match reg_operand s with Some o => Some o | None => None end
-  | _ => match aeval no_env e with Some v => Some (OImm v) | None => None end
+  | _ => match aeval rho e with Some v => Some (OImm v) | None => None end
   end.
 
 (* terms of a bracket expression *)
@@ -44,8 +47,8 @@ Definition term_of_mul (m : exp) : option aterm :=
       | Some n, _ => Some (AReg 16 n 1) | _, Some n => Some (AReg 32 n 1) | None, None => None
       end
   | EMul (EImm (FId s)) [(OpMul, k)] =>
-      match idx s n32 0, aeval no_env k with Some n, Some sc => Some (AReg 32 n sc) | _, _ => None end
-  | _ => match aeval no_env m with Some v => Some (AConst v) | None => None end
+      match idx s n32 0, aeval rho k with Some n, Some sc => Some (AReg 32 n sc) | _, _ => None end
+  | _ => match aeval rho m with Some v => Some (AConst v) | None => None end
   end.
 
 Record acc := { a_w : Z; a_base : option Z; a_index : option Z; a_scale : Z; a_disp : Z; a_ok : bool }.
@@ -134,7 +137,7 @@ Fixpoint all_some_sop (l : list (option sop)) : option (list sop) :=
 
 Definition mode_bits (m : bmode) : Z := match m with B16 => 16 | B32 => 32 end.
 
-Definition denote (m : bmode) (st : stmt) : option instr :=
+Definition denote_env (m : bmode) (st : stmt) : option instr :=
   match st with
   | SOp op =>
       (* synonyms the SDM lists for one encoding *)
@@ -175,3 +178,7 @@ Definition denote (m : bmode) (st : stmt) : option instr :=
       end
   | _ => None
   end.
+
+End WithEnv.
+
+Definition denote (m : bmode) (st : stmt) : option instr := denote_env no_env m st.
